@@ -227,14 +227,14 @@ pub fn run(rep: &mut Report) {
         "correct rounding is NOT claimed for these functions, only the crate's stated bound".into(),
     ];
     super::run_corpus(rep, replay);
-    let stride = tier.pick(256, 8);
+    let stride = tier.pick(64, 8);
     let off = rep.cfg.seed % stride;
     for fi in 0..UNARY.len() {
         rep.lattice(&format!("{}: every {}th of the 2^32 patterns (offset {})", UNARY[fi].name, stride, off), (1u64 << 32) / stride, move |i, l| unary(fi, i * stride + off, l));
         rep.generated(&format!("{}: boundary inputs", UNARY[fi].name), tier.pick(60_000, 1_500_000), boundary_inputs, move |&a, l| unary(fi, a, l));
     }
     for fi in 0..BINARY.len() {
-        rep.generated(&format!("{}: generated pairs", BINARY[fi].name), tier.pick(600_000, 40_000_000), pair_inputs, move |&(a, b), l| binary(fi, a, b, l));
+        rep.generated(&format!("{}: generated pairs", BINARY[fi].name), tier.pick(3_000_000, 40_000_000), pair_inputs, move |&(a, b), l| binary(fi, a, b, l));
     }
 }
 
